@@ -53,7 +53,7 @@ CLAIMED = {
         "construct); oracle on the pre-transform doctree: node.line of the marked node, the lines of its chain of "
         "container ancestors, the '<source>:<line>:' prefix and system_message line of every MyST warning, source path "
         "and file-relative lines inside includes; bounded search."
-        " Also: warnings raised by transforms (unreferenced footnotes), fenced languages without a lexer (highlighting on), blank lines after a container's opening fence.",
+        " Also: warnings raised by transforms (unreferenced footnotes), fenced languages without a lexer (highlighting on), blank lines after a container's opening fence; the Sphinx entry point and 0-3 blank lines before the first block; a docutils directive that numbers its own node (parsed-literal).",
         "Warning-producing inline constructs sit in one-line paragraphs; docutils-made nodes and table rows / cells "
         "(untrue value pinned by the gettext fixtures) are outside the domain; the include +1 offset is an open finding.",
         "exhaustive wrapper-shape enumeration + Hypothesis trees; ground-truth-by-construction oracle",
@@ -74,7 +74,7 @@ CLAIMED = {
         "directives, with text after the wrapper that uses a footnote and a target defined inside X; metamorphic "
         "oracle: pre-transform children of the innermost wrapper == nodes of X in place, and the published tree with the "
         "wrappers spliced out == the published in-place tree (pformat, line / source masked); bounded search."
-        " Also: the included file keeps its path across cases, is included twice, or is selected with start-after / end-before.",
+        " Also: the included file keeps its path across cases, is included twice, or is selected with start-after / end-before; eleven block kinds as first / last / only block of the inserted text through every way of nesting.",
         "Position-dependent directives are not generated inside X; substitution X avoids Jinja delimiters; outer use "
         "of a link reference definition made inside X is an open finding, replayed but not drawn.",
         "Hypothesis grammar; metamorphic oracle (wrapped vs in-place rendering, before and after transforms)",
